@@ -186,16 +186,22 @@ def _runtime_cases(tier):
                 combos.append((method, L1_MODES[0], MOBILITY[0], form, ls, 0, None))
         combos.append((method, L1_MODES[0], MOBILITY[0], "pressure", "direct", 3, None))
         combos.append((method, L1_MODES[0], MOBILITY[0], "pressure", "direct", 0, 2.0))
+    for form, ls in (("pressure", "direct"), ("pressure", "amg"), ("flux_reduced", "direct"), ("full", "direct")):
+        combos.append(("bregman-adaptive", L1_MODES[0], MOBILITY[0], form, ls, 0, None))
     if tier == "quick":
         combos = [c for i, c in enumerate(combos) if i % 3 == 0 or c[5] or c[6] or c[3] != "pressure" or c[4] != "direct"]
     kinds = ("dense", "sparse", "single")
     k = 0
     for shape in shapes:
         for c in combos:
-            if tier == "quick" and (hash((shape, c[0], c[1].name, c[2].name, c[3], c[4])) % 4 != 0) and not (c[5] or c[6]):
+            if tier == "quick" and (hash((shape, c[0], c[1].name, c[2].name, c[3], c[4])) % 4 != 0) and not (c[5] or c[6] or c[0] == "bregman-adaptive"):
                 continue
             out.append(dict(shape=shape, method=c[0], l1=c[1].name, mob=c[2].name, form=c[3], ls=c[4], aa=c[5], weight=c[6], masses=kinds[k % 3]))
             k += 1
+    # runs stopped right after the first Anderson mixing step (iteration index 2)
+    for method in ("newton", "bregman"):
+        for form in ("pressure", "full"):
+            out.append(dict(shape=(4, 3), method=method, l1=L1_MODES[0].name, mob=MOBILITY[0].name, form=form, ls="direct", aa=2, weight=None, masses="dense", num_iter=3))
     return out
 
 
@@ -203,14 +209,21 @@ def _runtime_cases(tier):
     cite="the returned flux satisfies the discrete mass balance ... to linear-solver precision, the reported distance is the transport cost of "
          "exactly that flux, and the auxiliary outputs (cell fluxes, transport density, pressure pinned at the reference cell) derive from the same solution",
     note="bounded: the real solvers on 1-3-D grids incl. single-cell axes and anisotropic voxels; residual size of splu / AMG / CG is not decidable by contract")
-def c04_runtime(ctx, shape, method, l1, mob, form, ls, aa, weight, masses):
+def c04_runtime(ctx, shape, method, l1, mob, form, ls, aa, weight, masses, num_iter=25):
     rng = np.random.default_rng(abs(hash((shape, method, l1, mob, form, ls))) % (1 << 30))
     grid, h = grid_of(shape)
     m1, m2 = images(shape, h, rng, masses)
     wimg = None
     if weight:
         wimg = darsia.Image(np.full(shape, float(weight)), space_dim=len(shape), scalar=True, dimensions=list(m1.dimensions))
-    opts = base_options(l1_mode=W.L1Mode[l1], mobility_mode=W.MobilityMode[mob], formulation=form, linear_solver=ls, aa_depth=aa, num_iter=25)
+    opts = base_options(l1_mode=W.L1Mode[l1], mobility_mode=W.MobilityMode[mob], formulation=form, linear_solver=ls, aa_depth=aa, num_iter=num_iter)
+    if num_iter != 25:
+        opts.update(tol_residual=1e-30, tol_increment=1e-30, tol_distance=1e-30)
+    ctx.witness("bregman_anderson_first_mixing_blowup", False)
+    if method == "bregman-adaptive":
+        # adaptive regularisation: the weight is updated at several iterations > 0; tolerances unreachable so that the run gets there
+        opts.update(bregman_update=lambda it: it % 3 == 0, tol_residual=1e-30, tol_increment=1e-30, tol_distance=1e-30, num_iter=10)
+        method = "bregman"
     thin = min(shape) == 1 or len(shape) == 1
     known_cfg = thin and mob in ("SUBCELL_BASED", "FACE_BASED")
     ctx.witness("subcell_or_face_mobility_on_thin_grid", False)
@@ -227,6 +240,13 @@ def c04_runtime(ctx, shape, method, l1, mob, form, ls, aa, weight, masses):
             cap["distance"] = r[0]
             return r
         w._solve = spy
+        real_ls = w.linear_solve
+        peak = {"rhs": 0.0}
+
+        def ls_spy(matrix, rhs, *a, **k):
+            peak["rhs"] = max(peak["rhs"], float(np.max(np.abs(rhs))) if rhs.size else 0.0)
+            return real_ls(matrix, rhs, *a, **k)
+        w.linear_solve = ls_spy
         try:
             dist, info = w(m1, m2)
         except IndexError:
@@ -239,6 +259,8 @@ def c04_runtime(ctx, shape, method, l1, mob, form, ls, aa, weight, masses):
     sol = cap["solution"]
     flat = sol[w.flux_slice]
     scale = max(1.0, float(np.linalg.norm(mass_rhs(w, m1, m2))))
+    # recorded known finding: the first Anderson mixing of the Bregman iteration can blow up the right-hand side (ill-conditioned least squares)
+    ctx.witness("bregman_anderson_first_mixing_blowup", method == "bregman" and aa > 0 and peak["rhs"] > 1e8 * scale)
     ctx.ensure("mass balance: div(flux) == M (m2 - m1) to solver precision", balance_residual(w, flat, m1, m2) <= 1e-7 * scale)
     ctx.ensure("reported distance == l1_dissipation(returned flux)", abs(dist - w.l1_dissipation(flat)) <= 1e-9 * max(1.0, abs(dist)))
     ctx.ensure("cell fluxes == face_to_cell(returned flux)", bool(np.allclose(info["flux"], darsia.face_to_cell(grid, flat), atol=1e-12)))
